@@ -65,6 +65,13 @@ func isStruct(t types.Type) bool {
 
 // shape returns the leaves of a value of type t.
 func shape(t types.Type) []Leaf {
+	if tp, ok := t.(*types.TypeParam); ok {
+		// a type parameter with a core type (S ~[]T) has that type's shape
+		if ct := coreType(tp); ct != nil {
+			return shape(ct)
+		}
+		return []Leaf{{"", SInt}}
+	}
 	switch u := t.Underlying().(type) {
 	case *types.Basic:
 		switch {
@@ -300,3 +307,35 @@ func sanitize(s string) string {
 }
 
 func sym(s string) string { return "|" + sanitize(s) + "|" }
+
+// coreType: the single underlying type of a type parameter's type set, if any.
+func coreType(tp *types.TypeParam) types.Type {
+	iface, ok := tp.Constraint().Underlying().(*types.Interface)
+	if !ok {
+		return nil
+	}
+	var ct types.Type
+	for i := 0; i < iface.NumEmbeddeds(); i++ {
+		switch e := iface.EmbeddedType(i).(type) {
+		case *types.Union:
+			if e.Len() == 1 {
+				ct = e.Term(0).Type().Underlying()
+			}
+		default:
+			if _, isIface := e.Underlying().(*types.Interface); !isIface {
+				ct = e.Underlying()
+			}
+		}
+	}
+	return ct
+}
+
+// under is Underlying() that sees through type parameters with a core type.
+func under(t types.Type) types.Type {
+	if tp, ok := t.(*types.TypeParam); ok {
+		if ct := coreType(tp); ct != nil {
+			return ct
+		}
+	}
+	return t.Underlying()
+}
